@@ -15,7 +15,8 @@ From Verif Require Import Base.Prelude Model.Stack Spec.StackObs Spec.C10Spec
      - removing connection p (Disconnect, or Connect over a connection that is still there)
        publishes exactly one removal event per subscription and binding of p and one for the
        device, and nothing else; an entity-removed notification for entities of p publishes
-       exactly one removal event per subscription and binding of (p, entity);
+       exactly one removal event per subscription and binding of (p, entity); so does a
+       discovery reply for the entities it no longer lists;
      - from then on exactly those entries are missing: every peer's listing is exactly what it
        obtained and still owns, a data change is notified exactly once per remaining
        subscription, Resolve(p) fails by SKI and by address;
@@ -128,6 +129,39 @@ Theorem C10_entity_teardown_exact : forall ops p ctr ack dm,
   forall q, q <> p -> view s' q = view s q.
 Proof. exact entity_teardown_exact. Qed.
 Print Assumptions C10_entity_teardown_exact.
+
+(* ---------- explicit corollary: a discovery reply that no longer lists entities ---------- *)
+
+(* a further discovery reply of p removes exactly the entries of (p, entity it no longer lists),
+   completes the device part of the client address of p's entries made through its node-management
+   feature before the first reply ([completed]), and leaves every other peer alone *)
+Theorem C10_reply_teardown_exact : forall ops p m,
+  let s := fst (run init ops) in
+  let s' := fst (step s (DiscoveryReply p m)) in
+  let gone := gone_of (snd (step s (DiscoveryReply p m))) in
+  subs s' = filter (fun x => negb (N.eqb (e_ski x) p && existsb (eqb_eaddr (fa_ent (e_cli x))) gone)) (completed s p m (subs s)) /\
+  binds s' = filter (fun x => negb (N.eqb (e_ski x) p && existsb (eqb_eaddr (fa_ent (e_cli x))) gone)) (completed s p m (binds s)) /\
+  next_sub s' = next_sub s /\ next_bind s' = next_bind s /\
+  forall q, q <> p -> view s' q = view s q.
+Proof. exact reply_teardown_exact. Qed.
+Print Assumptions C10_reply_teardown_exact.
+
+(* Regression (repaired by bbf4b62, formerly witness (iii) of the recorded finding): connection 2
+   has not announced a device address, announces entity [1] under connection 1's address d1 and
+   then announces it removed; the bookkeeping of the request written to connection 1 stays, and
+   every step is strictly accepted. *)
+Definition notif (d : N) (st : estate) : disc_msg :=
+  {| dm_dev := Some d; dm_ents := [ {| de_addr := [1%N]; de_dev := None; de_state := Some st |} ];
+     dm_feats := match st with SAdded => [ {| df_ent := [1%N]; df_id := 1; df_type := 1; df_role := RClient |} ] | SRemoved => [] end |}.
+Definition c10_foreign_address : list op :=
+  [ AddLocalEntity [1%N]; AddLocalFeature [1%N] 1 RClient;
+    Connect 1; DiscoveryReply 1 (tree 1); LocalSubscribe [1%N] 1 (a (Some 1%N) [1%N] 1);
+    Connect 2; DiscoveryNotify 2 201 false (notif 1 SAdded); DiscoveryNotify 2 202 false (notif 1 SRemoved);
+    HasLocalSub [1%N] 1 (a (Some 1%N) [1%N] 1) ].
+Example C10_entity_under_foreign_address_repaired :
+  map snd (skipn 8 (snd (run init c10_foreign_address))) = [ [ORetB true] ] /\
+  strictly_accepted (judge minit sinit (snd (run init c10_foreign_address))) = true.
+Proof. vm_compute. split; reflexivity. Qed.
 
 (* Non-vacuity: two peers with identical entity / feature numbers subscribe and bind; peer 1 is
    removed: two removal events + the device event, peer 2's listing and service are untouched,
